@@ -10,7 +10,7 @@ import (
 // touch the subscriber counter of the events the process was subscribed to?
 
 func init() {
-	generators = append(generators, generator{name: "Event", run: genEvent, fallback: "namespace ErgoVerif.Gen.Event\ndef terminationUpdatesCounter : Bool := false\ndef publishDedupes : Bool := false\nend ErgoVerif.Gen.Event\n"})
+	generators = append(generators, generator{name: "Event", run: genEvent, fallback: "namespace ErgoVerif.Gen.Event\ndef terminationUpdatesCounter : Bool := false\ndef publishDedupes : Bool := false\ndef remoteFramePerNode : Bool := false\nend ErgoVerif.Gen.Event\n"})
 }
 
 func genEvent() (string, error) {
@@ -51,8 +51,74 @@ func genEvent() (string, error) {
 	if err != nil {
 		return "", err
 	}
+	fd, err := remoteFramePerNode()
+	if err != nil {
+		return "", err
+	}
 	return fmt.Sprintf("namespace ErgoVerif.Gen.Event\n/-- unregisterProcess decrements eventOwner.consumers for the subscriptions of the terminated process -/\ndef terminationUpdatesCounter : Bool := %s\n"+
-		"/-- RouteSendEvent skips a consumer it has already served in this fan-out (`if seen[pid] { continue }; seen[pid] = true` heading the loop over the consumers) -/\ndef publishDedupes : Bool := %s\nend ErgoVerif.Gen.Event\n", leanBool(res), leanBool(dd)), nil
+		"/-- RouteSendEvent skips a consumer it has already served in this fan-out (`if seen[pid] { continue }; seen[pid] = true` heading the loop over the consumers) -/\ndef publishDedupes : Bool := %s\n"+
+		"/-- RouteSendEvent collects the nodes of the remote consumers in a map (a set) and sends one frame per entry -/\ndef remoteFramePerNode : Bool := %s\nend ErgoVerif.Gen.Event\n", leanBool(res), leanBool(dd), leanBool(fd)), nil
+}
+
+// remoteFramePerNode: in RouteSendEvent the loop that calls connection.SendEvent ranges over a variable that was
+// made as a map (`x := make(map[gen.Atom]bool)`): one iteration, one frame, per remote node.
+func remoteFramePerNode() (bool, error) {
+	f, err := parseFile("node/core.go")
+	if err != nil {
+		return false, err
+	}
+	fd := funcDecl(f, "node", "RouteSendEvent")
+	if fd == nil {
+		return false, fmt.Errorf("node.RouteSendEvent not found")
+	}
+	over := ""
+	ast.Inspect(fd.Body, func(n ast.Node) bool {
+		rs, ok := n.(*ast.RangeStmt)
+		if !ok {
+			return true
+		}
+		sends := false
+		ast.Inspect(rs.Body, func(x ast.Node) bool {
+			if c, ok := x.(*ast.CallExpr); ok && strings.HasSuffix(selName(c.Fun), ".SendEvent") {
+				sends = true
+			}
+			return !sends
+		})
+		if sends {
+			over = selName(rs.X)
+		}
+		return true
+	})
+	if over == "" {
+		return false, fmt.Errorf("node.RouteSendEvent: the loop sending the event to the remote nodes was not found")
+	}
+	isMap, found := false, false
+	ast.Inspect(fd.Body, func(n ast.Node) bool {
+		switch st := n.(type) {
+		case *ast.AssignStmt:
+			if len(st.Lhs) == 1 && len(st.Rhs) == 1 && selName(st.Lhs[0]) == over && st.Tok.String() == ":=" {
+				found = true
+				if c, ok := st.Rhs[0].(*ast.CallExpr); ok && selName(c.Fun) == "make" && len(c.Args) >= 1 {
+					_, isMap = c.Args[0].(*ast.MapType)
+				}
+				if cl, ok := st.Rhs[0].(*ast.CompositeLit); ok {
+					_, isMap = cl.Type.(*ast.MapType)
+				}
+			}
+		case *ast.ValueSpec:
+			for _, nm := range st.Names {
+				if nm.Name == over {
+					found = true
+					_, isMap = st.Type.(*ast.MapType)
+				}
+			}
+		}
+		return true
+	})
+	if !found {
+		return false, fmt.Errorf("node.RouteSendEvent: declaration of %s not found", over)
+	}
+	return isMap, nil
 }
 
 // publishDedupes: in node/core.go RouteSendEvent, the loop `for _, pid := range consumers` starts with
